@@ -541,6 +541,106 @@ Proof.
   - exists s. split; [reflexivity|exact E].
 Qed.
 
+(* ---- ldap: one persistent reader, exact counts only ---- *)
+Lemma ldap_message_persistent t content k : persistent k -> persistent (ldap_message t content k).
+Proof. intros Hk. unfold ldap_message. repeat (first [exact Hk | per_step]). Qed.
+
+Lemma ldap_persistent fuel : persistent (ldap_prog fuel).
+Proof.
+  induction fuel as [|f IH]; cbn [ldap_prog]; [constructor|].
+  constructor. intros hdr. destruct hdr as [|t [|l0 [|x r]]]; try constructor.
+  repeat (first [apply ldap_message_persistent; exact IH | per_step]).
+Qed.
+
+Lemma ldap_run c : run_impl SVC_LDAP c = expected SVC_LDAP (concat c).
+Proof. unfold run_impl, expected. apply persistent_obs. apply ldap_persistent. Qed.
+
+(* ---- telnet: the terminal's line discipline is a function of the byte stream ---- *)
+Lemma tn_feed_app a : forall st b,
+  tn_feed st (a ++ b) =
+  let '(st1, e1) := tn_feed st a in let '(st2, e2) := tn_feed st1 b in (st2, e1 ++ e2).
+Proof.
+  induction a as [|x a IH]; intros st b; cbn [app tn_feed].
+  - destruct (tn_feed st b) as [st2 e2]. reflexivity.
+  - destruct (tn_key st x) as [st1 e1]. rewrite IH.
+    destruct (tn_feed st1 a) as [st2 e2]. destruct (tn_feed st2 b) as [st3 e3].
+    rewrite app_assoc. reflexivity.
+Qed.
+
+(* induction over the list of segments: feeding them one Read after the other is feeding
+   their concatenation *)
+Lemma tn_feed_segs_concat c : forall st, tn_feed_segs st c = tn_feed st (concat c).
+Proof.
+  induction c as [|s r IH]; intros st; cbn [tn_feed_segs concat]; [reflexivity|].
+  rewrite tn_feed_app. destruct (tn_feed st s) as [st1 e1]. rewrite IH. reflexivity.
+Qed.
+
+Lemma telnet_run c : run_model SVC_TELNET c = reference SVC_TELNET (concat c).
+Proof.
+  change (run_model SVC_TELNET c) with (tn_run c).
+  change (reference SVC_TELNET (concat c)) with (tn_expected (concat c)).
+  unfold tn_run, tn_expected. rewrite tn_feed_segs_concat. reflexivity.
+Qed.
+
+Lemma telnet_segmentation_invariant c1 c2 : concat c1 = concat c2 -> tn_run c1 = tn_run c2.
+Proof. intros E. unfold tn_run. rewrite !tn_feed_segs_concat, E. reflexivity. Qed.
+
+(* plain text lines: bytes >= 32 other than DEL are appended, CR is dropped, LF completes *)
+Definition tn_text (b : N) : bool := (32 <=? b)%N && negb (beq b 127%N).
+Definition tn_text_or_cr (b : N) : bool := tn_text b || beq b CR.
+
+Lemma tn_key_cr stage line pos : tn_key (mkTn stage line pos) CR = (mkTn stage line pos, []).
+Proof. destruct stage; reflexivity. Qed.
+
+Lemma tn_key_text stage line b :
+  stage <> TEnd -> tn_text b = true -> length line < TN_MAXLINE ->
+  tn_key (mkTn stage line (length line)) b = (mkTn stage (line ++ [b]) (length (line ++ [b])), []).
+Proof.
+  intros Hs Hb Hl. unfold tn_text in Hb. apply andb_true_iff in Hb as [H32 H127].
+  apply negb_true_iff in H127.
+  assert (E1 : beq b LF = false) by (unfold beq, LF in *; lia).
+  assert (E2 : beq b 4%N = false) by (unfold beq in *; lia).
+  assert (E3 : beq b 8%N = false) by (unfold beq in *; lia).
+  assert (E4 : beq b 21%N = false) by (unfold beq in *; lia).
+  assert (E5 : beq b 1%N = false) by (unfold beq in *; lia).
+  assert (E6 : beq b 5%N = false) by (unfold beq in *; lia).
+  assert (E7 : beq b 11%N = false) by (unfold beq in *; lia).
+  assert (E8 : (length line =? TN_MAXLINE) = false) by (apply Nat.eqb_neq; lia).
+  assert (E9 : firstn (length line) line ++ b :: skipn (length line) line = line ++ [b])
+    by (rewrite firstn_all, skipn_all; reflexivity).
+  assert (E10 : S (length line) = length (line ++ [b])) by (rewrite app_length; cbn [length]; lia).
+  destruct stage; try congruence; unfold tn_key; cbn [t_stage t_line t_pos];
+    rewrite E1, E2, H127, E3, E4, E5, E6, E7, H32, E8, E9, E10; reflexivity.
+Qed.
+
+Lemma tn_feed_text l : forall stage line,
+  stage <> TEnd -> forallb tn_text_or_cr l = true ->
+  length line + length (filter tn_text l) <= TN_MAXLINE ->
+  tn_feed (mkTn stage line (length line)) l =
+  (mkTn stage (line ++ filter tn_text l) (length (line ++ filter tn_text l)), []).
+Proof.
+  induction l as [|b l IH]; intros stage line Hs Hl Hlen; cbn [tn_feed filter forallb] in *.
+  - rewrite app_nil_r. reflexivity.
+  - apply andb_true_iff in Hl as [Hb Hl]. unfold tn_text_or_cr in Hb.
+    destruct (tn_text b) eqn:Et.
+    + cbn [length] in Hlen. rewrite (tn_key_text stage line b Hs Et) by lia.
+      rewrite (IH stage (line ++ [b]) Hs Hl) by (rewrite app_length; cbn [length]; lia).
+      rewrite <- app_assoc. reflexivity.
+    + cbn [orb] in Hb. unfold beq in Hb. apply N.eqb_eq in Hb. subst b.
+      rewrite tn_key_cr. rewrite (IH stage line Hs Hl Hlen). reflexivity.
+Qed.
+
+(* a command line of text ended by LF, in the session stage: exactly one event carrying the
+   text with the CRs removed - wherever it is cut *)
+Lemma tn_session_line l line :
+  forallb tn_text_or_cr l = true -> length line + length (filter tn_text l) <= TN_MAXLINE ->
+  tn_feed (mkTn TSess line (length line)) (l ++ [LF]) =
+  (mkTn TSess [] 0, [mkEv EV_TN_CMD [line ++ filter tn_text l]]).
+Proof.
+  intros Hl Hlen. rewrite tn_feed_app. rewrite (tn_feed_text l TSess line) by (congruence || assumption).
+  reflexivity.
+Qed.
+
 (* ------------------------------------------------------------------ *)
 (* the property at full strength                                       *)
 (* ------------------------------------------------------------------ *)
